@@ -56,7 +56,7 @@ RULES = [
   (r'bitstr_ext::word_find', r'Overflow\((Add|Mul)\)', r'', '-', 'pos is a byte offset returned by memmem::find inside rest_bytes: pos*8 < rest.len() and start + pos*8 < end'),
   (r'bitstr_ext::write_dump_position|state::State::pretty_error', r'call:unwrap', r'write_fmt', '-', 'write! into a String cannot fail'),
   (r'file::fs_overlay::exec_piped', r'call:unwrap', r'', '-', 'the child was spawned with Stdio::piped() for stdin, so stdin.take() is Some'),
-  (r'lex::token_location', r'.*', r'', '-', 'i and i + len_utf8 come from char_indices of the parent string: char boundaries within the buffer; start/end are taken from those'),
+  (r'lex::token_location', r'.*', r'', '@line-bounds-are-boundaries', 'i and i + len_utf8 come from char_indices of the parent string: char boundaries within the buffer; start/end are taken from those'),
   (r'opcodes::RelativeJump::calculate', r'Overflow\(Add\)', r'', '-', 'ip < code.len() < 2^56 widened to isize plus an i32 offset'),
   (r'opcodes::RelativeJump::from_to', r'OverflowNeg', r'', 'Gt(arg1, arg2)', 'origin - dest is a distance between two code positions (< 2^56): positive isize, negation cannot overflow'),
   (r'state::State::backpatch$', r'call:index:index_mut', r'', '-', 'origins stored in pending flows / taken from code_origin() in the same word index instructions already emitted (C01.R2); build_abort truncates code and flows together (C10.R1)'),
